@@ -188,6 +188,38 @@ def md_case(rng, maxops):
     return ops
 
 
+def deep_case(rng, kind):
+    """degenerate shapes: a crit-bit chain n internal nodes deep (n beyond any word-size bound an explicit
+    stack or a depth counter might assume), through cbtree / mdict / strpool, with walks and deletes"""
+    n = rng.choice([63, 64, 65, 66, 67, 100, 129, 130, 200])
+    if rng.below(2):
+        keys = [b"a" * i + b"b" for i in range(n)]        # chain along child[0]
+    else:
+        keys = [b"a" * (i + 1) for i in range(n)]         # chain along child[1] (prefixes)
+    order = list(keys)
+    r = rng.below(3)
+    if r == 1: order.reverse()
+    elif r == 2:
+        for i in range(len(order) - 1, 0, -1):
+            j = rng.below(i + 1)
+            order[i], order[j] = order[j], order[i]
+    probe = [keys[0], keys[-1], keys[n // 2], b"a" * (n + 3), b"c"]
+    if kind == "cb":
+        ops = ["ins " + vf.hexs(k) for k in order] + ["walk 0", "walk %d" % (n - 1)]
+        ops += ["get " + vf.hexs(k) for k in probe]
+        ops += [("delown " if i % 2 else "del ") + vf.hexs(k) for i, k in enumerate(keys[::3])]
+        ops += ["walk 0", "destroy"]
+    elif kind == "md":
+        ops = ["mput %s %s" % (vf.hexs(k), vf.hexs(bytes([0x30 + i % 10]))) for i, k in enumerate(order)]
+        ops += ["mwalk", "menc", "mrt"] + ["mget " + vf.hexs(k) for k in probe]
+        ops += ["mdel " + vf.hexs(k) for k in keys[::3]] + ["mwalk", "mrt", "mfree"]
+    else:
+        ops = ["sget " + vf.hexs(k) for k in order] + ["stotal"]
+        ops += ["sget " + vf.hexs(k) for k in probe[:3]] + ["stotal"]
+        ops += ["sdec %d" % (i + 1) for i in range(0, n, 3)] + ["stotal", "sfree"]
+    return ops
+
+
 def exhaustive_cb(nkeys, length):
     keys = [b"", b"a", b"ab", b"b", b"\x80", b"a\x80"][:nkeys]
     opsets = []
@@ -256,6 +288,8 @@ def run(ck):
     ex = list(exhaustive_cb(*(ck.scale((4, 3), (5, 4)))))
     go(ex, "exhaustive-cbtree")
     ck.cov["exhaustive_histories"] = len(ex)
+    deep = [deep_case(rng, kind) for kind in ("cb", "md", "sp") for _ in range(ck.scale(4, 30))]
+    go(deep, "deep-chains")
     n = ck.scale(4000, 150000) * mult
     cb = [cb_case(rng, ck.scale(60, 200)) for _ in range(n)]
     go(cb, "random-cbtree")
